@@ -64,9 +64,11 @@ theorem derived_focus (S : GoType) (seq : List Entry) (h : unfold S [] 0 = .ok s
   have : e.field.type = A ∧ l = ⟨e, T, A⟩ := by
     rcases hl with hl | hl <;>
     · simp only [newLens, newReflector] at hl
-      by_cases ht : e.field.type = A
-      · simp [ht] at hl; exact ⟨ht, hl.symm⟩
-      · simp [ht] at hl
+      by_cases hk : T.kind = .struct
+      · by_cases ht : e.field.type = A
+        · simp [hk, ht] at hl; exact ⟨ht, hl.symm⟩
+        · simp [hk, ht] at hl
+      · simp [hk] at hl
   obtain ⟨ht, rfl⟩ := this
   exact ⟨by simpa [FocusOn, ht] using ho, rfl, rfl, rfl⟩
 /-- `Get` returns exactly the bytes of the field: the `size A` bytes at the layout offset of the path. -/
@@ -129,14 +131,14 @@ theorem reflector_is_lens (l : Lens) (m : Mem) (s : Nat) (a : List UInt8) :
     l.gett m ⟨some (.ptr l.S), s⟩ = .ok (l.get m s) := by
   simp [Lens.putt, Lens.gett]
 
-/-- `ForProductN[T, A₁…A_N]()` (by type): succeeds with `ls` iff the i-th lens is `NewLens` of the
+/-- `ForProductN[T, A₁…A_N]()` (by type) for a struct container `T`: succeeds with `ls` iff the i-th lens is `NewLens` of the
 FIRST entry of the full listing whose type is `A_i` (positional pairing), for every N. -/
-theorem forProduct_by_type (T : GoType) (seq : List Entry)
+theorem forProduct_by_type (T : GoType) (hT : T.kind = .struct) (seq : List Entry)
     (hseq : unfold (if T.kind = .ptr then T.elem else T) [] 0 = .ok seq) (As : List GoType) (ls : List Lens) :
     forProduct T As [] = .ok ls ↔
       Pointwise (fun A l => ∃ e, seq.find? (fun e => decide (e.field.type = A)) = some e ∧ l = ⟨e, T, A⟩) As ls := by
   unfold forProduct
-  rw [deriveN_by_type newLens (Or.inl rfl) T seq hseq As]
+  rw [deriveN_by_type newLens (Or.inl rfl) T hT seq hseq As]
   exact by_type_aux T seq As ls
 where
   by_type_aux (T : GoType) (seq : List Entry) : (As : List GoType) → (ls : List Lens) →
@@ -175,10 +177,10 @@ where
               simp [hm] at this
               simp [mkLens, this]
 
-/-- `ForProductN[T, A₁…A_N](attr…)` (by name, at least N names): succeeds with `ls` iff the i-th lens
+/-- `ForProductN[T, A₁…A_N](attr…)` (by name, at least N names) for a struct container `T`: succeeds with `ls` iff the i-th lens
 is `NewLens` of the FIRST entry whose `FieldKey()` is the i-th name and that entry's declared type is
 `A_i` (positional pairing; names beyond the N-th are ignored), for every N ≥ 1. -/
-theorem forProduct_by_name (T : GoType) (seq : List Entry)
+theorem forProduct_by_name (T : GoType) (hT : T.kind = .struct) (seq : List Entry)
     (hseq : unfold (if T.kind = .ptr then T.elem else T) [] 0 = .ok seq) (As : List GoType) (attr : List String)
     (h1 : 1 ≤ As.length) (hlen : As.length ≤ attr.length) (ls : List Lens) :
     forProduct T As attr = .ok ls ↔
@@ -188,7 +190,7 @@ theorem forProduct_by_name (T : GoType) (seq : List Entry)
   unfold forProduct
   have hne : attr ≠ [] := by
     intro h; subst h; rw [List.length_nil] at hlen; omega
-  rw [deriveN_by_name newLens (Or.inl rfl) T seq hseq As attr hne h1 hlen]
+  rw [deriveN_by_name newLens (Or.inl rfl) T hT seq hseq As attr hne h1 hlen]
   exact by_name_aux T seq As attr hlen ls
 where
   by_name_aux (T : GoType) (seq : List Entry) : (As : List GoType) → (attr : List String) → As.length ≤ attr.length →
